@@ -23,6 +23,7 @@ import collections
 import json
 import os
 import random
+import re
 
 from harness import core, querycorpus
 
@@ -516,117 +517,180 @@ def model_lines(e, c, sep):
 
 
 def stream_sample(ctx, corpus, rng, count):
-    """yaml-paths main() on streams of 2-3 documents (file, STDIN, two files): per document exactly the lines of that
-    document's own search (spec: StreamLines - nothing is carried from one document to the next)."""
+    """yaml-paths main() on single documents and streams of 2-3 documents (file, STDIN, two files) with one to three
+    --search expressions and --except expressions: per document exactly the report the specification gives (spec:
+    StreamReport / DocReport - per document the union of the searches minus the exceptions, each path once; nothing is
+    carried from one document to the next)."""
     from harness import absdoc, pathssearchobs as pso
-    index = collections.defaultdict(list)
+    table = []                                   # per document: {o: {expr: case}}
+    index = collections.defaultdict(list)        # (o, expr) -> documents (positions in table)
     for e in corpus:
+        per = collections.defaultdict(dict)
         for c in e["cases"]:
             if c["info"] or c["cls"] or any(i > len(e["doc"]) for i in c["mir"]):
                 continue
             for expr in list(c["x"]) + list(c.get("spell", [])):
-                index[(c["o"], expr)].append((e, c))
-    keys = sorted(k for k, v in index.items() if any(c["mir"] for _, c in v))
+                per[c["o"]][expr] = c
+        table.append((e, per))
+        for o, m in per.items():
+            for expr in m:
+                index[(o, expr)].append(len(table) - 1)
+    starts = [(k, o) for k, (e, per) in enumerate(table) for o, m in per.items() if any(c["mir"] for c in m.values())]
     d = ctx.path("streams")
     os.makedirs(d, exist_ok=True)
     stats = collections.Counter()
     viol = []
-    for n in range(count if keys else 0):
-        o, expr = keys[rng.randrange(len(keys))]
-        group = index[(o, expr)]
-        hot = [g for g in group if g[1]["mir"]]
-        cold = [g for g in group if not g[1]["mir"]]
-        a = rng.choice(hot)
-        kind = ("same", "shared", "later", "gap")[n % 4]
-        if kind == "shared" and len(hot) < 2:
-            kind = "same"
-        if kind == "later" and not cold:
-            kind = "gap"
-        if kind == "same":
-            docs = [a, a]
-        elif kind == "shared":
-            sep0 = "/"
-            mine = set(model_lines(a[0], a[1], sep0))
-            some = hot if len(hot) <= 40 else rng.sample(hot, 40)
-            sharing = [g for g in some if g is not a and mine & set(model_lines(g[0], g[1], sep0))]
-            docs = [a, rng.choice(sharing or hot), a][:rng.choice([2, 3])]
-        elif kind == "later":
-            docs = [rng.choice(cold), a]
-        else:
-            docs = [a, None, rng.choice(hot)]
+
+    def lines_of(k, o, expr, sep):
+        e, per = table[k]
+        return model_lines(e, per[o][expr], sep)
+
+    for n in range(count if starts else 0):
+        k, o = starts[rng.randrange(len(starts))]
+        e, per = table[k]
         sep = rng.choice([".", "/"])
+        avail = sorted(per[o])
+        hot = [x for x in avail if per[o][x]["mir"]]
+        x1 = rng.choice(hot)
+        l1 = set(lines_of(k, o, x1, sep))
+        over = [x for x in hot if x != x1 and l1 & set(lines_of(k, o, x, sep))]
+        disj = [x for x in avail if x != x1 and not (l1 & set(lines_of(k, o, x, sep)))]
+        mode = ("one", "overlapping", "disjoint", "identical", "except", "three+except")[n % 6]
+        searches, excepts = [x1], []
+        if mode == "overlapping":
+            searches = [x1, rng.choice(over or hot)]
+        elif mode == "disjoint":
+            searches = [x1, rng.choice(disj or avail)]
+        elif mode == "identical":
+            searches = [x1, x1]
+        elif mode == "except":
+            searches = [x1] + ([rng.choice(over)] if over and n % 4 < 2 else [])
+            excepts = [rng.choice(over or hot)]
+        elif mode == "three+except":
+            searches = [x1, rng.choice(over or avail), rng.choice(avail)]
+            excepts = [rng.choice(avail)] + ([rng.choice(hot)] if n % 4 == 0 else [])
+        exprs = searches + excepts
+        # other documents that have a case for every expression under the same options
+        others = None
+        for x in set(exprs):
+            ks = set(index[(o, x)])
+            others = ks if others is None else others & ks
+        others = sorted(others - {k})
+        kind = ("single", "same", "shared", "later", "gap")[(n // 6) % 5]
+        if kind in ("shared", "later") and not others:
+            kind = "same"
+        if kind == "single":
+            docs = [k]
+        elif kind == "same":
+            docs = [k, k]
+        elif kind == "shared":
+            docs = [k, rng.choice(others), k][:rng.choice([2, 3])]
+        elif kind == "later":
+            cold = [j for j in others if not any(lines_of(j, o, x, sep) for x in searches)]
+            docs = [rng.choice(cold or others), k]
+        else:
+            docs = [k, None, rng.choice(others) if others else k]
         texts = []
         skip = False
-        for g in docs:
-            if g is None:
+        for j in docs:
+            if j is None:
                 texts.append("---\n")
                 continue
-            t = doc_text(g[0]["doc"], g[0].get("sx"), "block", False)
-            if pso.has_side(g[0].get("sx")) and pso.merge_unfilled(absdoc.load(t)):
+            ej = table[j][0]
+            t = doc_text(ej["doc"], ej.get("sx"), "block", False)
+            if pso.has_side(ej.get("sx")) and pso.merge_unfilled(absdoc.load(t)):
                 skip = True
             texts.append(t)
         if skip:
             continue
         stream = "".join(texts)
+
+        def report(j):
+            if j is None:
+                return []
+            pss = [lines_of(j, o, x, sep) for x in searches]
+            gone = {p for x in excepts for p in lines_of(j, o, x, sep)}
+            out, seen = [], set()
+            for x, ps in zip(searches, pss):
+                for pth in ps:
+                    if pth not in seen:
+                        seen.add(pth)
+                        if pth not in gone:
+                            out.append((("[%s]" % x) if len(searches) > 1 else "", pth))
+            return out
+        per_doc = [report(j) for j in docs]
         flags = [f for f in pso.flags(o, sep) if f not in ("--nofile", "--nostdin")]
+        eargs = [a for x in searches for a in ("--search", x)] + [a for x in excepts for a in ("--except", x)]
         how = ("file", "stdin", "files")[n % 3]
         f1 = os.path.join(d, "s%d.yaml" % (n % 7))
         with open(f1, "w") as fh:
             fh.write(stream)
-        per_doc = [[] if g is None else model_lines(g[0], g[1], sep) for g in docs]
         if how == "stdin":
-            code, lines, err = pso.run_main(["--search", expr] + flags + ["-"], stdin_text=stream)
+            code, lines, err = pso.run_main(eargs + flags + ["-"], stdin_text=stream)
             names = [("STDIN", per_doc)]
         elif how == "files":
             f2 = os.path.join(d, "t%d.yaml" % (n % 7))
             with open(f2, "w") as fh:
                 fh.write(texts[-1])
-            code, lines, err = pso.run_main(["--search", expr, "--nostdin"] + flags + [f1, f2])
+            code, lines, err = pso.run_main(eargs + ["--nostdin"] + flags + [f1, f2])
             names = [(f1, per_doc), (f2, per_doc[-1:])]
         else:
-            code, lines, err = pso.run_main(["--search", expr, "--nostdin"] + flags + [f1])
+            code, lines, err = pso.run_main(eargs + ["--nostdin"] + flags + [f1])
             names = [(f1, per_doc)]
-        want = ["%s/%d: %s" % (name, k, p) for name, pd in names for k, ps in enumerate(pd) for p in ps]
+        want = ["%s/%d%s: %s" % (name, i, deco, pth) for name, pd in names for i, ps in enumerate(pd) for deco, pth in ps]
         stats["streams"] += 1
         stats["stream_documents"] += sum(len(pd) for _, pd in names)
         stats["streams_" + kind] += 1
         stats["streams_by_" + how] += 1
+        stats["expressions_" + mode] += 1
         if code == 0 and lines == want:
             continue
         if code == 0 and sorted(lines) == sorted(want):
             stats["stream_order_differs"] += 1        # the statement does not order the report
             continue
-        missing = [l for l in want if l not in lines]
-        extra = [l for l in lines if l not in want]
+        # judge on (document, path): the "[EXPR]" attribution is mirrored from the code, not part of the statement
+        strip = lambda l: re.sub(r"^(\S+?/\d+)\[.*?\]: ", r"\1: ", l) if len(searches) > 1 else l
+        got_s, want_s = [strip(l) for l in lines], [strip(l) for l in want]
+        if code == 0 and sorted(got_s) == sorted(want_s):
+            stats["stream_attribution_differs"] += 1
+            continue
+        missing = [l for l in want_s if l not in got_s]
+        extra = [l for l in got_s if l not in want_s]
+        dup = [l for l in set(got_s) if got_s.count(l) > want_s.count(l) and l in want_s]
         first_names = {"%s/0:" % name for name, _ in names}
+        multi = ":several-expressions" if len(searches) > 1 or excepts else ""
         if code != 0:
             sig = "stream:exit-code"
         elif missing:
-            sig = "stream:complete:%s-document" % ("first" if all(l.split(" ")[0] in first_names for l in missing) else "later")
+            sig = "stream:complete:%s-document%s" % ("first" if all(l.split(" ")[0] in first_names for l in missing) else "later", multi)
         elif extra:
-            sig = "stream:sound"
+            sig = "stream:sound:%s" % ("excepted-path-printed" if excepts else "unexpected-path") + multi
+        elif dup:
+            sig = "stream:repeat" + multi
         else:
-            sig = "stream:repeat"
-        viol.append((sig, "stream (%s, %s, %s) search %s %s: exit %s, printed %s, expected per document %s%s" % (
-            kind, how, repr(stream), expr, " ".join(flags), code, lines, want, (" stderr " + err[:200]) if err else ""),
-            {"kind": "stream", "stream": stream, "expr": expr, "flags": flags, "how": how, "want": want,
+            sig = "stream:differs" + multi
+        viol.append((sig, "stream (%s, %s, %s) %s %s: exit %s, printed %s, expected per document %s%s" % (
+            kind, how, repr(stream), " ".join(eargs), " ".join(flags), code, lines, want, (" stderr " + err[:200]) if err else ""),
+            {"kind": "stream", "stream": stream, "eargs": eargs, "flags": flags, "how": how, "want": want_s, "several": len(searches) > 1,
              "names": [name for name, _ in names], "last": texts[-1]}))
     return viol, stats
 
 
 def replay_stream(rp):
     from harness import pathssearchobs as pso
-    d = os.path.dirname(rp["names"][0]) if rp["how"] != "stdin" else None
-    if d:
-        os.makedirs(d, exist_ok=True)
+    eargs = rp.get("eargs") or ["--search", rp["expr"]]
+    if rp["how"] != "stdin":
+        os.makedirs(os.path.dirname(rp["names"][0]), exist_ok=True)
         with open(rp["names"][0], "w") as fh:
             fh.write(rp["stream"])
         if rp["how"] == "files":
             with open(rp["names"][1], "w") as fh:
                 fh.write(rp["last"])
-        code, lines, _ = pso.run_main(["--search", rp["expr"], "--nostdin"] + rp["flags"] + rp["names"])
+        code, lines, _ = pso.run_main(eargs + ["--nostdin"] + rp["flags"] + rp["names"])
     else:
-        code, lines, _ = pso.run_main(["--search", rp["expr"]] + rp["flags"] + ["-"], stdin_text=rp["stream"])
+        code, lines, _ = pso.run_main(eargs + rp["flags"] + ["-"], stdin_text=rp["stream"])
+    if rp.get("several"):
+        lines = [re.sub(r"^(\S+?/\d+)\[.*?\]: ", r"\1: ", l) for l in lines]
     if code == 0 and sorted(lines) == sorted(rp["want"]):
         return []
     return ["stream :: exit %s, printed %s, expected %s" % (code, lines, rp["want"])]
